@@ -519,6 +519,8 @@ fn client_worker(
         for (k, v) in res.stats.replies_injected.iter() {
             *out.faults_fired.entry(format!("reply_{k}")).or_insert(0) += v;
         }
+        *out.faults_fired.entry("client_kill_between_operations".into()).or_insert(0) += res.stats.kills - res.stats.kills_at_crash_points.min(res.stats.kills);
+        *out.faults_fired.entry("client_kill_at_crash_point".into()).or_insert(0) += res.stats.kills_at_crash_points;
         if res.stats.nontrivial {
             nontrivial.insert(fnv64(serde_json::to_string(&(&h.cfg, &h.ops, &h.crash_at)).unwrap().as_bytes()));
         }
